@@ -36,6 +36,7 @@ MIN_REACH = {
     "absent_coordinate_requests": {"quick": 100, "thorough": 1500},
     "searches_with_a_progress_bar": {"quick": 60, "thorough": 800},
     "requested_grids_given_as_one_shot_iterables": {"quick": 30, "thorough": 400},
+    "complex_valued_variables": {"quick": 80, "thorough": 1000},
 }
 TIME_BUDGET = {"quick": 400, "thorough": 3400}
 # (some parameter names coincide with keyword options of xarray's own selection methods: they are ordinary names here)
@@ -82,6 +83,9 @@ def _absent(rng, vals, typ):
         if all(c != v for v in vals):
             return c
     return {"int": 999, "float": 123.456, "str": "absent"}[typ]
+
+
+COMPLEX_VARS = [0]
 
 
 def build(case):
@@ -137,6 +141,15 @@ def build(case):
             for val in it:
                 xo[it.multi_index] = None if np.isnan(val) else "s%d" % int(abs(float(val)) * 100 % 97) if np.isfinite(val) else "inf"
             x = xo
+        if x.dtype.kind == "f" and (case["dseed"] + vi) % 4 == 0:
+            # a complex-valued output (an amplitude): an infinity may sit in the real or in the imaginary part, a NaN likewise
+            xc = x.astype(complex)
+            flip = (np.indices(shape).sum(axis=0) % 2 == 1) if shape else np.array(False)
+            sel = ~np.isfinite(x) & flip
+            xc.imag[sel] = x[sel]
+            xc.real[sel] = 0.0
+            x = xc
+            COMPLEX_VARS[0] += 1
         data[v["name"]] = (tuple(vd) + (("tau",) if v["internal"] else ()), x)
     if any(v["internal"] for v in case["vars"]):
         coords["tau"] = [0.1, 0.2, 0.3]
@@ -188,7 +201,9 @@ def run_case(ctx, case):
     import xarray as xr
     if case["type"] == "loop":
         return run_loop(ctx, case)
+    c0_ = COMPLEX_VARS[0]
     ds = build(case)
+    ctx.count("complex_valued_variables", COMPLEX_VARS[0] - c0_)
     before = ds.copy(deep=True)
     method = case["method"]
     dims = list(case["dims"])
